@@ -2,9 +2,11 @@
     case: ((op collapse_len|collapse_sup|collapse_depth|resolve) (tree T) (l q) (s q) (min z) (max z)
            (rr T|F) (rt T|F) (seed n) (nraw n))
     obs : ((raw (n ...))? (err msg) (tree T') (audit (...)))
-    The exact-set oracle for collapse applies with removeRoot = removeTips = false (the
-    defaults of the commands) on trees without single-child nodes; other flag values are
-    judged by correspondence (plus: well-formed, same tips). *)
+    The exact-set oracle for collapse applies on trees without single-child nodes with removeRoot
+    = false, or removeRoot = true when the root has >= 3 neighbours (no effect there), with
+    removeTips = false ([collapse_ok]) or true ([collapse_ok_tips]); removeRoot = true on a rooted
+    tree is judged by correspondence (plus: well-formed, same tips).  resolve: [resolve_ok], or
+    [resolve_ok_single] when the input contains single-child inner nodes. *)
 From Coq Require Import String ZArith QArith Bool Arith List.
 From GT Require Import Base.Sexp Base.UTree Base.Codec Spec.Obs Spec.Contract Model.Reroot Model.Rand Model.Collapse Judge.Common.
 Import ListNotations.
@@ -29,23 +31,25 @@ Definition judge (c o : sexp) : verdict :=
       let rr := match get_bool "rr" c with Some b => b | None => false end in
       let rt := match get_bool "rt" c with Some b => b | None => false end in
       let in_dom := wf t && no_single t && Nat.leb 2 (degree t) in
-      let exact := in_dom && negb rr && negb rt in
+      (* removeRoot has no effect when the root has three neighbours or more (C07_collapse_removeRoot_irrelevant_unrooted) *)
+      let rr_off := negb rr || Nat.leb 3 (degree t) in
+      let exact := in_dom && rr_off && negb rt in
       (* model result, oracle on Go's output *)
       let mo : option (res utree * option string * string) :=
           if String.eqb op "collapse_len" then
             l <- get_Q "l" c ;;
             Some (Ok (collapse_len l rr rt t),
                   (if exact then collapse_ok (CLen l) t g
-                   else if in_dom && negb rr && rt then collapse_ok_tips (CLen l) t g else basic_ok t g), "len")
+                   else if in_dom && rr_off && rt then collapse_ok_tips (CLen l) t g else basic_ok t g), "len")
           else if String.eqb op "collapse_sup" then
             s <- get_Q "s" c ;;
             Some (Ok (collapse_sup s rr t),
-                  (if in_dom && negb rr then collapse_ok (CSup s) t g else basic_ok t g), "sup")
+                  (if in_dom && rr_off then collapse_ok (CSup s) t g else basic_ok t g), "sup")
           else if String.eqb op "collapse_depth" then
             mn <- get_Z "min" c ;; mx <- get_Z "max" c ;;
             Some (collapse_depth mn mx rr rt t,
                   (if exact then collapse_ok (CDepth mn mx) t g
-                   else if in_dom && negb rr && rt then collapse_ok_tips (CDepth mn mx) t g else basic_ok t g), "depth")
+                   else if in_dom && rr_off && rt then collapse_ok_tips (CDepth mn mx) t g else basic_ok t g), "depth")
           else if String.eqb op "resolve" then
             raw <- (x <- get "raw" o ;; dec_list dec_N x) ;;
             d <- draws (resolve_bounds t) raw ;;
